@@ -18,7 +18,7 @@ from ..symx import Ctx
 
 PROP = 'C12'
 NAMES = ['a', 'b1']
-FIXED = ['n', "it's", '', 'q\'"q', "b\\'s", 'back\\slash']
+FIXED = ['n', "it's", '', 'q\'"q', "b\\'s", 'back\\slash', 'ab', 'a b']   # the last two differ by a blank only
 TYPES = ['T']
 # identifier spellings textX's ID admits ([^\d\W]\w*): attribute and rule names of a grammar may be any of them
 IDENTS = ['a', '_', '_1', 'A9', 'b_c', '\u00e4', '\u00e4mter', 'gr\u00f6\u00dfe', '\u00f1_', '\u03bb', '\u03a91', '\u0436\u0443\u043a',
